@@ -157,11 +157,11 @@ def part_b(chk, asan, quick):
                            % ((refuse,) + lib), r.brief())
             elif r.sig != 6:
                 chk.report("libovni-version-check:threads:odd-exit", "rc=%s sig=%s" % (r.rc, r.sig), r.brief())
-            elif refuse not in r.err:
-                # the process was stopped, but by a refusal of one of the accepted versions
+            elif "ABORT-IN thread=0" not in r.out:
+                # the process was stopped, but by a refusal in a thread that only checked accepted versions
                 chk.report("libovni-version-check:threads:rejects-compatible",
-                           "concurrent checks: the library refused something else than %r: %s"
-                           % (refuse, r.err.strip().split("\n")[-1][:200]), r.brief())
+                           "concurrent checks: the library stopped a thread that was checking accepted versions (%s): %s"
+                           % (r.out.strip()[-40:], r.err.strip().split("\n")[-1][:200]), r.brief())
     return n + nthr, lib
 
 
@@ -173,6 +173,8 @@ def enabled_models(stderr):
     """Names the emulator reports as enabled (INFO lines)."""
     names = []
     grab = False
+    if "models are enabled" not in stderr:
+        return None     # the listing is not there in the form we know: nothing to judge
     for l in stderr.split("\n"):
         if "models are enabled" in l:
             grab = True
@@ -306,7 +308,9 @@ def part_c(chk, plain, quick):
             continue
         if acc and "expect_enabled" in c:
             got = enabled_models(r.err)
-            if got != c["expect_enabled"]:
+            if got is None:
+                chk.note_inconclusive("no list of enabled models in the emulator's output")
+            elif got != c["expect_enabled"]:
                 chk.report("emu-enabled-set", "required %s, emulator enabled %s (expected %s)"
                            % (c["requires"], sorted(got), sorted(c["expect_enabled"])), {"requires": c["requires"]})
     return n, kinds
